@@ -1116,9 +1116,10 @@ theorem leader_eq (c : Codec) (x : PXact) :
   unfold leader dateTok codeText
   cases x.aux <;> cases x.code <;> simp [List.append_assoc]
 
-theorem dateTok_noWs (c : Codec) (hc : c.toDateCodec.Lawful) (x : PXact) :
+theorem dateTok_noWs (c : Codec) (hc : c.toDateCodec.Lawful) (x : PXact)
+    (hd : c.dateDom x.date = true) (hda : ∀ a, x.aux = some a → c.dateDom a = true) :
     ∀ ch ∈ dateTok c x, isWs ch = false := by
-  have fd := dateFacts (hc.show_ok x.date)
+  have fd := dateFacts (hc.show_ok x.date hd)
   unfold dateTok
   intro ch hch
   rcases List.mem_append.mp hch with h | h
@@ -1129,7 +1130,7 @@ theorem dateTok_noWs (c : Codec) (hc : c.toDateCodec.Lawful) (x : PXact) :
       simp only [hx, List.mem_cons] at h
       rcases h with h | h
       · subst h; decide
-      · exact (dateFacts (hc.show_ok a)).noWs ch h
+      · exact (dateFacts (hc.show_ok a (hda a hx))).noWs ch h
 
 theorem takeCode_spec (k : Option Str) (hk : ∀ t, k = some t → codeOk t = true) (R : Str)
     (hR1 : ∀ ch, R.head? = some ch → isWs ch = false ∧ ch ≠ '(') (hne : R ≠ []) :
@@ -1166,11 +1167,12 @@ theorem takeWhile_notWs_append {a : Str} (ha : ∀ x ∈ a, isWs x = false) (r :
 /-- parse_xact on the printed header line. -/
 theorem parseHeader_printed (c : Codec) (hc : c.Lawful) (x : PXact)
     (hs : x.state ≤ 2) (hp : PayeeFacts x.payee) (hk : ∀ t, x.code = some t → codeOk t = true)
+    (hdd : c.dateDom x.date = true) (hda : ∀ a, x.aux = some a → c.dateDom a = true)
     (sfx : Option Str) (hsfx : ∀ l, sfx = some l → endOk l = true) :
     parseHeader c (leader c x ++ sfxText sfx) =
       .ok { date := x.date, aux := x.aux, state := x.state, code := x.code, payee := x.payee,
             note := sfx.map (fun t => { lines := [t], nextLine := false }) } := by
-  have fd := dateFacts (hc.date.show_ok x.date)
+  have fd := dateFacts (hc.date.show_ok x.date hdd)
   rw [leader_eq]
   unfold parseHeader
   -- the trailing strip changes nothing
@@ -1190,7 +1192,7 @@ theorem parseHeader_printed (c : Codec) (hc : c.Lawful) (x : PXact)
       dateTok c x ++ ' ' :: (stateMark x.state ++ (codeText x.code ++ (x.payee ++ sfxText sfx))) := by
     simp [List.append_assoc]
   rw [e1]
-  have ⟨ht, hd⟩ := takeWhile_notWs_append (dateTok_noWs c hc.date x)
+  have ⟨ht, hd⟩ := takeWhile_notWs_append (dateTok_noWs c hc.date x hdd hda)
     (stateMark x.state ++ (codeText x.code ++ (x.payee ++ sfxText sfx)))
   simp only [ht, hd]
   -- the date token
@@ -1199,7 +1201,7 @@ theorem parseHeader_printed (c : Codec) (hc : c.Lawful) (x : PXact)
     cases x.aux with
     | none => simp only [List.append_nil, Option.map_none]; exact cutAt_none fd.noEq
     | some a => simp only [Option.map_some]; exact cutAt_some fd.noEq
-  simp only [hcut, hc.date.read_show]
+  simp only [hcut, hc.date.read_show x.date hdd]
   -- after the date
   have hR : ∀ ch, (codeText x.code ++ (x.payee ++ sfxText sfx)).head? = some ch →
       isWs ch = false ∧ ch ≠ '*' ∧ ch ≠ '!' := by
@@ -1244,9 +1246,9 @@ theorem parseHeader_printed (c : Codec) (hc : c.Lawful) (x : PXact)
       rw [head?_append_of_ne hp.ne] at hch
       exact ⟨(hp.head ch hch).1, (hp.head ch hch).2.2.2.1⟩) hne]
   simp only [hne, if_false, scanPayee_payee hp sfx]
-  cases x.aux with
+  cases hx : x.aux with
   | none => simp
-  | some a => simp [hc.date.read_show]
+  | some a => simp [hc.date.read_show a (hda a hx)]
 
 /-! ### continuation note lines and the body -/
 
@@ -1445,29 +1447,32 @@ theorem elideFlags_sound (x : PXact) :
     simp at this
     rcases this.2 with h | ⟨_, h⟩ <;> (rw [h] at hflag; simp at hflag)
 
-structure XactFacts (c : AmtCodec) (x : PXact) : Prop where
+structure XactFacts (c : Codec) (x : PXact) : Prop where
   state : x.state ≤ 2
   payee : PayeeFacts x.payee
   note  : optNoteOk x.note = true
   code  : ∀ t, x.code = some t → codeOk t = true
-  posts : ∀ p ∈ x.posts, PostFacts c p
+  posts : ∀ p ∈ x.posts, PostFacts c.toAmtCodec p
+  date  : c.dateDom x.date = true
+  aux   : ∀ a, x.aux = some a → c.dateDom a = true
 
-theorem xactFacts {c : AmtCodec} {x : PXact} (h : xactOk c x = true) : XactFacts c x := by
+theorem xactFacts {c : Codec} {x : PXact} (h : xactOk c x = true) : XactFacts c x := by
   unfold xactOk at h
   simp only [Bool.and_eq_true, decide_eq_true_eq, List.all_eq_true] at h
-  obtain ⟨⟨⟨⟨h1, h2⟩, h3⟩, h4⟩, h5⟩ := h
-  refine ⟨h1, payeeFacts h2, h3, ?_, fun p hp => postFacts (h5 p hp)⟩
-  intro t ht; rw [ht] at h4; exact h4
+  obtain ⟨⟨⟨⟨⟨⟨h1, h2⟩, h3⟩, h4⟩, h5⟩, h6⟩, h7⟩ := h
+  refine ⟨h1, payeeFacts h2, h3, ?_, fun p hp => postFacts (h5 p hp), h6, ?_⟩
+  · intro t ht; rw [ht] at h4; exact h4
+  · intro a ha; rw [ha] at h7; exact h7
 
 /-- re-reading the printed lines of a transaction yields `norm x`. -/
-theorem parse_render (c : Codec) (hc : c.Lawful) (L : Layout) (x : PXact) (hx : xactOk c.toAmtCodec x = true) :
+theorem parse_render (c : Codec) (hc : c.Lawful) (L : Layout) (x : PXact) (hx : xactOk c x = true) :
     parseXactText c (renderXact c L x) = .ok (norm c L x) := by
   have hf := xactFacts hx
   unfold renderXact
   obtain ⟨sfx, ns, hw, hs, hn, hnote⟩ := withNote_shape L (leader c x) (leader c x).length x.note hf.note
   simp only [hw, List.cons_append]
   unfold parseXactText
-  simp only [parseHeader_printed c hc x hf.state hf.payee hf.code sfx hs]
+  simp only [parseHeader_printed c hc x hf.state hf.payee hf.code hf.date hf.aux sfx hs]
   rw [parseBody_xactNotes c.toAmtCodec x.state ns hn, hnote]
   rw [parseBody_posts c.toAmtCodec hc.amt L x.state (accountWidth L x) _ (x.posts.zip (elideFlags L x))
     (by
@@ -1695,7 +1700,7 @@ theorem elideSecond_norm (c : Codec) (hc : c.Lawful) (L : Layout) (x : PXact) (p
 /-- printing the transaction that was re-read from the printed text reproduces the text,
     unless the first print wrote padding after an elided amount. -/
 theorem render_fixpoint (c : Codec) (hc : c.Lawful) (L : Layout) (x : PXact)
-    (hx : xactOk c.toAmtCodec x = true) (hpad : trailingPad L x = false) :
+    (hx : xactOk c x = true) (hpad : trailingPad L x = false) :
     renderXact c L (norm c L x) = renderXact c L x := by
   have hf := xactFacts hx
   unfold renderXact
